@@ -280,6 +280,8 @@ def pureFunc (name : String) (ps : List Prm) (val : GoVal) : Option Out :=
   let pick (sel : List RV → Option RV) : Out :=
     if !count0 then .err else
     let v := RV.of val
+    let emptyList := match val with | .slice _ _ [] => true | .array _ [] => true | _ => false
+    if emptyList then .err else
     if isEmptyValue v then okDec Dec.zero else
     match listOf val with
     | some xs => match sel xs with | some x => .ok (numberKindsToDecimal x.toAny) | none => .err
